@@ -512,6 +512,68 @@ func ops() []op {
 			return resigned(b, c.owner), true
 		})
 	}
+	// The execution result and the header disagree about the validator set of the next height. These blocks are refused only
+	// after they have been executed, and the valid successor offered afterwards must not be judged by anything they left behind.
+	otherParams := func(c *mctx) (*node.NextParams, bool) {
+		cur, err := c.n.CurrentParams(c.valid.Header.Height)
+		if err != nil || len(cur.Idx) == 0 {
+			return nil, false
+		}
+		next := &node.NextParams{Idx: append([]int{}, cur.Idx...), Weights: append([]uint64{}, cur.Weights...)}
+		next.Weights[0]++
+		var w uint64
+		for _, x := range next.Weights {
+			w += x
+		}
+		next.Precommit, next.Cert = w*2/3+1, w*2/3+1
+		return next, true
+	}
+	add("validator-change-executed-but-validatorsHash-of-old-set", true, func(c *mctx) (*blockchain.Block, bool) {
+		if c.spec.Script.Next != nil && !c.spec.NoScript {
+			return nil, false
+		}
+		next, ok := otherParams(c)
+		if !ok {
+			return nil, false
+		}
+		sp := c.spec
+		sp.NoScript = false
+		sp.Script.Next = next
+		sp.AbsSlot = c.slot
+		b, err := c.n.Build(sp)
+		if err != nil || bytes.Equal(b.Header.ValidatorsHash, c.valid.Header.ValidatorsHash) {
+			return nil, false
+		}
+		b.Header.ValidatorsHash = append([]byte{}, c.valid.Header.ValidatorsHash...)
+		return resigned(b, c.owner), true
+	})
+	add("validator-change-dropped-but-validatorsHash-of-new-set", true, func(c *mctx) (*blockchain.Block, bool) {
+		if c.spec.Script.Next == nil || c.spec.NoScript {
+			return nil, false
+		}
+		sp := c.spec
+		sp.Script.Next = nil
+		sp.AbsSlot = c.slot
+		b, err := c.n.Build(sp)
+		if err != nil || bytes.Equal(b.Header.ValidatorsHash, c.valid.Header.ValidatorsHash) {
+			return nil, false
+		}
+		b.Header.ValidatorsHash = append([]byte{}, c.valid.Header.ValidatorsHash...)
+		return resigned(b, c.owner), true
+	})
+	add("validatorsHash-of-another-set", true, func(c *mctx) (*blockchain.Block, bool) {
+		next, ok := otherParams(c)
+		if !ok {
+			return nil, false
+		}
+		h := node.ValidatorsHashOf(next)
+		if bytes.Equal(h, c.valid.Header.ValidatorsHash) {
+			return nil, false
+		}
+		b := c.clone()
+		b.Header.ValidatorsHash = h
+		return resigned(b, c.owner), true
+	})
 	sort.Slice(out, func(i, j int) bool { return out[i].name < out[j].name })
 	return out
 }
@@ -530,7 +592,7 @@ var opTickets = func() []int {
 	var out []int
 	for i, o := range allOps {
 		out = append(out, i)
-		if strings.HasPrefix(o.name, "aggregate-") || o.name == "maxHeightGenerated-contradicting" {
+		if strings.HasPrefix(o.name, "aggregate-") || strings.HasPrefix(o.name, "validator-change-") || o.name == "maxHeightGenerated-contradicting" {
 			out = append(out, i, i)
 		}
 	}
